@@ -342,12 +342,8 @@ example : natOf (interp wLink { check_association_integrity with body :=
           .addTo "res" (.callOn "check_link_integrity" "m" "ass" "source_link") ] [] ],
       .ret "res" ] } [.model, relV none]) = some 0 := by decide +kernel
 
-/-- check_uniqueness_constraint: NOT yet proved for every world — its generated loop nest (class loop, id_map initialisation,
-    null-test loop with `continue`, identifier loop with the kwargs dictionary, test BEFORE the key is stored) is interpreted
-    here on sample worlds only (a TEST, evaluated by the kernel): the interpretation returns the model's count on `w0` (duplicate
-    identifier, null id) and on `wU` (two identifiers, a repeated attribute name in one, a non-identifying attribute, nulls),
-    restricted and unrestricted.  An in-fragment rewrite of the function that changes a count on these worlds fails here; any
-    rewrite changes Gen/CheckShape.lean (reported as a broken tie). -/
+/-- sample world for check_uniqueness_constraint: two identifiers, a repeated attribute name in one, a non-identifying
+    attribute, nulls (used by the kernel-evaluated samples and by the application of `uniqueness_as_in_source` below) -/
 def wU : World :=
   { sch := [],
     classes := [{ attrs := [("a", false), ("b", true), ("c", false)], idents := [("I1", ["a", "b", "a"]), ("I2", ["b"])],
@@ -362,6 +358,44 @@ example : natOf (interp w0 check_uniqueness_constraint [.model, .cls 0]) = some 
     natOf (interp w0 check_uniqueness_constraint [.model, .none]) = some (checkUniq w0 none) ∧
     natOf (interp wU check_uniqueness_constraint [.model, .cls 0]) = some (checkUniq wU (some 0)) ∧
     natOf (interp wU check_uniqueness_constraint [.model, .none]) = some 4 ∧ checkUniq wU none = 4 := by decide
+
+/-- check_uniqueness_constraint, for EVERY world: the interpretation of the generated loop nest — `metaclasses` by `kind is
+    None`; per class: id_map initialised per identifier of `metaclass.indices`, `identifying` = the upper-cased
+    identifying_attributes; per instance of `metaclass.select_many()`: the loop over `metaclass.attributes` with its `continue`
+    for `name.upper() not in identifying`, `getattr`, the null test, `res += 1`; then per identifier: the kwargs dictionary over
+    `metaclass.indices[identifier]`, `frozenset(kwargs.items())`, the membership test in `id_map[identifier]` BEFORE the key is
+    stored, `res += 1` — returns the model's `checkUniq w kind`.  Hypotheses, exactly:
+      * a restricting `kind` names a class of the world (`find_metaclass` raises otherwise; the model returns 0);
+      * `UniqOK ci` for every class: (1) the identifier names are distinct (they are the keys of the dict `metaclass.indices`),
+        (2) LETTER-CASE AGREEMENT: for every declared attribute `a`, `a.upper()` is among the upper-cased identifying
+        attribute names exactly when `a` itself is among the identifying attribute names as the model lists them.  (2) is
+        what the repair of seed dfbbd44 is about: the source compares UPPER-CASED names (an identifier may have been defined
+        with another spelling than the class), the model compares the names as given — they agree when the spellings agree up
+        to what `upper` identifies, e.g. when `identifying` is listed in the spelling of the class (as the harness does). -/
+theorem uniqueness_as_in_source (w : World) (kind : Option Kind) (hk : ∀ k, kind = some k → k < w.classes.length)
+    (hok : ∀ ci ∈ w.classes,
+      (ci.idents.map (·.1)).Nodup ∧
+      ∀ a ∈ ci.attrs, (ci.identifying.map up).contains (up a.1) = ci.identifying.contains a.1) :
+    interp w check_uniqueness_constraint [.model, kindV kind] = some (.nat (checkUniq w kind)) :=
+  check_uniqueness_eq w kind hk hok
+
+/-- the hypotheses are satisfiable: on `wU` and on `w0`; `uniqueness_as_in_source` applied -/
+example : (∀ ci ∈ wU.classes, (ci.idents.map (·.1)).Nodup ∧
+      ∀ a ∈ ci.attrs, (ci.identifying.map up).contains (up a.1) = ci.identifying.contains a.1) ∧
+    (∀ ci ∈ w0.classes, (ci.idents.map (·.1)).Nodup ∧
+      ∀ a ∈ ci.attrs, (ci.identifying.map up).contains (up a.1) = ci.identifying.contains a.1) := by decide
+
+example : interp wU check_uniqueness_constraint [.model, .none] = some (.nat 4) ∧
+    interp wU check_uniqueness_constraint [.model, .cls 0] = some (.nat 4) :=
+  ⟨(uniqueness_as_in_source wU none (by intro k h; cases h) (by decide)).trans (congrArg (fun n => some (V.nat n)) (by decide)),
+   (uniqueness_as_in_source wU (some 0) (by intro k h; cases h; decide) (by decide)).trans
+     (congrArg (fun n => some (V.nat n)) (by decide))⟩
+
+/-- the second hypothesis is needed: identifying attribute "ID" for the declared attribute "Id" (another spelling) — the source
+    (upper-cased comparison) counts the null, the model (names as given) does not -/
+example :
+    let w : World := { wU with classes := [{ attrs := [("Id", false)], idents := [], identifying := ["ID"] }] }
+    natOf (interp w check_uniqueness_constraint [.model, .none]) = some 3 ∧ checkUniq w none = 0 := by decide
 
 end SourceShape
 
